@@ -295,3 +295,64 @@ _add(Cond('series_loc_boolseries', [(f'b{i}', 'bool') for i in range(4)] + [('p'
         functions=['Series._extract_loc', 'Index._loc_to_iloc'],
         bounds='Series of 4; Boolean Series key with the same labels rotated by a symbolic amount, every Boolean symbolic',
         route='Series.loc[bool Series]'))
+
+
+# ---- bloc selection: a Boolean Frame / array key returns exactly the True cells, each paired with its
+#      own (row label, column label)
+
+def mk_bloc(nrows, layout, tier='quick'):
+    def body(env, **kw):
+        sf = env.sf
+        f, rows, index, columns = mk_frame(env, nrows, layout)
+        mask = [[kw[f'b{r}{c}'] for c in range(4)] for r in range(nrows)]
+        key = env.array(mask, 'bool')
+        s = f.bloc[key]
+        got = [[env.obs(list(l)) if isinstance(l, tuple) else env.obs(l), env.obs(v)] for l, v in zip(s.index, s.values.tolist())]
+        exp = [[[index[r], columns[c]], rows[r][c]] for r in range(nrows) for c in range(4) if mask[r][c]]
+        return sorted(got, key=str), sorted(exp, key=str)
+    return Cond(f'bloc_{nrows}x_{layouts.name(layout)}', [(f'b{r}{c}', 'bool') for r in range(nrows) for c in range(4)], body,
+            functions=['Frame._extract_bloc', 'TypeBlocks.extract_bloc'],
+            bounds=f'{nrows}x4 int64 frame, layout {layout}; every cell of the Boolean key symbolic',
+            route='Frame.bloc[bool array]: exactly the True cells, each with its own (row, column) label', tier=tier, timeout=240)
+
+
+_add(mk_bloc(1, L4_QUICK[0]))
+_add(mk_bloc(2, L4_QUICK[3]))
+_add(mk_bloc(2, L4_QUICK[5], tier='thorough'))
+_add(mk_bloc(2, L4_QUICK[2], tier='thorough'))
+
+
+# ---- two-step: positional selection on an AUTO-INTEGER index, then label selection on the result
+
+def mk_auto_two_step(step, tier='quick'):
+    def body(env, start, stop, lab):
+        sf = env.sf
+        from vf import rt
+        from vf.refmodels import ref_slice_positions
+        from static_frame.core.exception import LocInvalid
+        vals = [10, 11, 12, 13, 14, 15]
+        s = rt.concrete(('C04auto', env.model), lambda: sf.Series(env.array(vals, 'int64')))   # labels 0..5 (auto index)
+        t = s.iloc[slice(start, stop, step)]
+        pos = ref_slice_positions(slice(start, stop, step), 6)
+        out = [env.obs(t.index.values.tolist()), env.obs(t.values.tolist())]
+        exp = [pos, [vals[i] for i in pos]]
+        # the labels of the result are the ORIGINAL labels: looking one up returns that label's value
+        try:
+            out.append(env.obs(t.loc[lab]))
+        except (KeyError, LocInvalid, IndexError):
+            out.append('lookup-error')
+        exp.append(vals[lab] if lab in pos else 'lookup-error')
+        out.append(env.obs(lab in t.index))
+        exp.append(lab in pos)
+        return out, exp
+    return Cond(f'auto_index_slice_then_loc_step{step}', [('start', 'oint'), ('stop', 'oint'), ('lab', 'int')], body,
+            ranges={'lab': (0, 6)},   # negative labels on a map-less index: finding F12 (C02), isolated there
+            functions=['Index._extract_iloc', 'Index._loc_to_iloc'],
+            bounds=f'auto-indexed Series of 6; positional slice start/stop UNBOUNDED symbolic, step = {step}; then label lookup with a symbolic label in 0..6',
+            route='Series.iloc[slice] then .loc[label] / `in`: the result keeps the original labels', tier=tier, timeout=240)
+
+
+for _st in (None, 2, -1):
+    _add(mk_auto_two_step(_st))
+_add(mk_auto_two_step(3, tier='thorough'))
+_add(mk_auto_two_step(-2, tier='thorough'))
